@@ -154,9 +154,9 @@ theorem readMetaBlock_chunk (pos : Nat) (c : List Nat) (rest : List Bool)
 
 /-- the input cut into the chunks `MakeUncompressedStream` stores: 2^24 bytes each, the rest last -/
 def chunksOf (l : List Nat) : List (List Nat) :=
-  if h : l.length > 0 then l.take (chunkOf l.length) :: chunksOf (l.drop (chunkOf l.length)) else []
+  if _h : l.length > 0 then l.take (chunkOf l.length) :: chunksOf (l.drop (chunkOf l.length)) else []
 termination_by l.length
-decreasing_by have := chunkOf_pos l.length h; simp; omega
+decreasing_by have := chunkOf_pos l.length _h; simp; omega
 
 theorem chunksOf_nil : chunksOf [] = [] := by rw [chunksOf]; simp
 
